@@ -71,6 +71,12 @@ func packProgram(pkgDir, prelude string, cases []packedCase) map[string]string {
 // runPacked executes all cases on both sides. perPack cases share one Go
 // binary. budget bounds each goatlang run.
 func runPacked(r *core.Run, tag, prelude string, cases []packedCase, perPack int, budget core.Budget) []packedResult {
+	return runPackedPrep(r, tag, prelude, cases, perPack, budget, nil)
+}
+
+// runPackedPrep lets the caller prepare each goatlang VM before the case is
+// loaded (e.g. intern names to steer index allocation).
+func runPackedPrep(r *core.Run, tag, prelude string, cases []packedCase, perPack int, budget core.Budget, prep func(m *core.Machine, i int)) []packedResult {
 	res := make([]packedResult, len(cases))
 	// Go side
 	var refCases []core.RefCase
@@ -160,6 +166,9 @@ func runPacked(r *core.Run, tag, prelude string, cases []packedCase, perPack int
 		dir := fmt.Sprintf("ref/%sg/cmd%sg", tag, tag)
 		files := packProgram(dir, prelude, cases[i:i+1])
 		m := core.NewMachine(core.VMOpts{Optimize: true, Obs: core.NewObs(budget, false, nil)})
+		if prep != nil {
+			prep(m, i)
+		}
 		res[i].Goat = m.LoadMain(core.MapFS(files), dir)
 	})
 	return res
